@@ -366,8 +366,10 @@ fn close_offsets(rep: &mut Report) {
                 // ... and always raises every worker's exit event: the workers terminate on their own
                 let mut alive = true;
                 for _ in 0..2000 {
-                    let n = std::fs::read_dir("/proc/self/task").map(|d| d.flatten().filter(|e| std::fs::read_to_string(e.path().join("comm")).map(|c| c.trim() == "vring_worker").unwrap_or(false)).count()).unwrap_or(0);
-                    if n == 0 {
+                    // (serve() has returned and its thread was joined: whatever exceeds the thread count
+                    // from before the daemon was created is a worker that is still running)
+                    let n = std::fs::read_dir("/proc/self/task").map(|d| d.count()).unwrap_or(0);
+                    if n <= threads_before {
                         alive = false;
                         break;
                     }
